@@ -455,7 +455,12 @@ impl<'a> Walk<'a> {
     {
         if self.follow_links || self.report_links {
             match self.resolve_link(&path) {
-                Ok((_, EntryType::File)) if self.report_links => self.visit_file(path, state),
+                Ok((target, EntryType::File)) if self.report_links => {
+                    // the link is reported with the identity and the data of its target
+                    if !self.one_fs || self.same_fs(&target, dev) {
+                        self.visit_file(path, state)
+                    }
+                }
                 Ok((target, _)) => {
                     if self.follow_links && (!self.one_fs || self.same_fs(&target, dev)) {
                         let gitignore = gitignore.through_link();
